@@ -505,3 +505,31 @@ def cli_shape_plans(tree, seed, tier):
             "faults": [], "toolchain": {"a": list(tcs[n % len(tcs)])}, "probe": {"include_order": rng.randrange(1 << 30), "api": []},
         })
     return plans
+
+
+def concurrent_plans(tree, seed, tier):
+    """Two generator processes overlapping in time on one machine (a build system running several
+    single-file targets at once): A is descheduled at one of its system calls, B runs from start to
+    finish, A continues.  Pairs of different selections x evenly spaced preemption points."""
+    rng = rng_for(seed, "concurrent")
+    pairs = 2 if tier == "quick" else 8
+    points = [60, 180, 300, 420, 540, 660, 780, 880, 950, 990] if tier == "quick" else list(range(20, 1000, 25)) + [990, 999]
+    tcs = all_toolchains()
+    out = []
+    n = 0
+    for i in range(pairs):
+        ua = rng.sample(tree.units, min(rng.choice((1, 2, 3)), len(tree.units)))
+        ub = rng.sample(tree.units, min(rng.choice((1, 2, 4)), len(tree.units)))
+        if i == 1:
+            ub = "ALL"
+        sels = [
+            {"units": ua, "constants": [], "io": True, "main_files": [], "version_id": "A", "opt_order": ["units", "constants", "noio", "version"]},
+            {"units": ub, "constants": rng.sample(tree.constants, 1), "io": False, "main_files": [], "version_id": "B", "opt_order": ["units", "constants", "noio", "version"]},
+        ]
+        env = {"listdir": {}, "listdir_default": _listdir_spec(rng), "extra_entries": {}, "git": "ok:concurrent", "stdout_mode": rng.choice(("block", "block", "unbuffered")), "stdout_bufsize": rng.choice((4096, 65536)), "crlf": False, "git_repo": "tracked", "clock": ["2026-09-26T12:00:00"]}
+        for pm in points:
+            hs = HASHSEEDS[n % len(HASHSEEDS)]
+            invs = [{"seed": seed, "run": "concurrent-%d/%s" % (n, "AB"[k]), "hashseed": hs, "selection": dict(sels[k]), "env": dict(env), "faults": [], "toolchain": {"a": list(tcs[(n + k) % len(tcs)])}, "probe": {"include_order": None, "api": []}} for k in range(2)]
+            out.append({"seed": seed, "run": "concurrent-%d" % n, "hashseed": hs, "concurrent": invs, "preempt_permille": pm})
+            n += 1
+    return out
